@@ -33,6 +33,24 @@ def check(run):
         inp = sc + b":" + sl + genlib.gen_userinfo(rng) + host + port + tail
         if genlib.is_utf8(inp):
             base_cases.append((inp, None, [], None))
+    # inputs that walk the scanner's own branches: trimming, the http(s) shortcut and its near misses, the 7-byte colon
+    # window, tabs in scheme / authority / port, 'xn--' anywhere, forbidden bytes, IPv4 look-alikes, port corner cases
+    for _ in range(n // 2):
+        sc = rng.choice([b"http", b"https", b"httpS", b"HtTp", b"httpe", b"htt", b"ws", b"wss", b"WSS", b"ftp", b"file", b"foo", b"a",
+                         b"h+t.p", b"abcdef", b"abcdefg", b"1ws", b"w\ts", b"ws\n", b"w s", b"-ws"])
+        sep = rng.choice([b"://", b"://", b"://", b":///", b":/\\/", b":/", b":", b":\\\\", b"//", b":/\t/"])
+        lab = lambda: rng.choice([b"a", b"b1", b"example", b"XN--A", b"xn--", b"axn--b", b"x", b"xn-", b"0", b"1", b"01", b"255", b"256",
+                                  b"0x1", b"0X", b"ff", b"g", b"1e", b"z9", b"a-b", b"_", b"%41", b"a@b", b"[", b"]", b"^", b"|", b"<",
+                                  b"\x7f", b"a\tb", b" ", b"\xc3\xa9", b"", b"", b"1.2.3.4", b"1.2.3.4.", b"0.0.0.0", b"255.255.255.255",
+                                  b"192.168.100.200", b"192.168.100.200.", b"1.2.3", b"1.2.3.04", b"1.2.3.256", b"1..2"])
+        host = b".".join(lab() for _ in range(rng.choice([1, 1, 2, 2, 3, 4, 5])))
+        port = rng.choice([b"", b"", b"", b":80", b":0", b":080", b":000000", b":00000000000080", b":65535", b":65536", b":065535", b":99999",
+                           b":100000", b":8a", b":", b":-1", b":+1", b":8\t0", b":80:", b"::80", b":8 0", b":\xc3\xa9"])
+        tail = rng.choice([b"", b"", b"/", b"/p", b"?q", b"#f", b"\\x", b"/\t", b"/\xc3\xa9", b"/[", b" ", b"\t", b"\n "])
+        lead = rng.choice([b"", b"", b"", b" ", b"\t", b"\x00 ", b"\n\r"])
+        inp = lead + sc + sep + host + port + tail
+        if genlib.is_utf8(inp):
+            base_cases.append((inp, None, [], None))
     lines, meta = [], []
     # first pass without limit: get href sizes (through seqagg) to aim the limits
     res = urlcorr.explore(run, binp, base_cases, with_spec=False, types=("seqagg",))
@@ -74,6 +92,22 @@ def check(run):
             run.violation("canparse:" + l, f"can_parse={parts[0]} but parse {'succeeds' if parts[1] == '1' else 'fails'} "
                           f"(L={L}, fast scanner said {fk}): {urlcorr.describe(case)}", lines=[l],
                           detail={"expected": f"{parts[1]} {parts[1]} fast={fk}"})
+    # L1: the Lean model of the scanner (Model/FastScan.lean, the subject of Props/C08.fast_sound) answers every input
+    # exactly like try_can_parse_absolute_fast
+    inputs = sorted({l.split()[2] for l in lines})
+    real = {}
+    for l, o in zip(lines, outs):
+        parts = o.split()
+        if len(parts) >= 3:
+            real[l.split()[2]] = parts[2][-1]
+    ans, dcrash = lib.run_lines(lib.driver_path(), [f"canfast {h}" for h in inputs], timeout=900)
+    if dcrash:
+        run.oblige("corr:L1 fast scanner (driver)", False, str(dcrash)[:300])
+    else:
+        bad = [(h, real.get(h), a) for h, a in zip(inputs, ans) if real.get(h) is not None and real.get(h) != a]
+        run.extra["fast_scanner_model_compared"] = len(inputs)
+        run.oblige("corr:L1 Model.FastScan.fastScan = try_can_parse_absolute_fast on every input", not bad,
+                   "; ".join(f"input {lib.unhx(h)!r}: implementation {r}, model {a}" for h, r, a in bad[:5]))
     run.extra["fast_scanner_answers"] = fast
     run.sample({"op": lines[0][:200], "answer": outs[0]})
     run.sample({"op": lines[-1][:200], "answer": outs[-1]})
